@@ -98,9 +98,10 @@ def shape_iupac(rng):
 
 def shape_big_lz(rng):
     """> 50 entries in one LZ group, > 50 samples = several catalogue batches"""
-    ns = rng.choice([53, 60, 64, 103])
-    p = f"{rng.choice([11, 15, 21])},{rng.choice([100, 200, 1000])},{rng.choice([15, 20, 25])},50,{rng.choice([1, 2, 4, 8])},{1 << 31},0"
-    return G.gen_big_group(rng, ns, clen=rng.choice([150, 300]), div=rng.choice([0.01, 0.03])), p, "multi"
+    ns = rng.choice([64, 70, 103])
+    k, sz = rng.choice([(11, 100), (15, 200), (11, 200)])
+    p = f"{k},{sz},{rng.choice([15, 20, 25])},50,{rng.choice([1, 2, 4, 8])},{1 << 31},0"
+    return G.gen_big_group(rng, ns, clen=rng.choice([300, 450]), div=0.03), p, "multi"
 
 
 def shape_many_short(rng):
@@ -134,7 +135,7 @@ def gen_cases(rng, tier, label=None):
     for old in os.listdir(CASEROOT):
         if old.startswith(label + "-") and not old.startswith(tag):
             shutil.rmtree(os.path.join(CASEROOT, old), ignore_errors=True)
-    reps = {"quick": [5, 2, 3, 3, 2, 1, 3, 2], "thorough": [90, 30, 40, 40, 25, 10, 40, 25]}[tier]
+    reps = {"quick": [5, 2, 3, 3, 2, 2, 3, 2], "thorough": [90, 30, 40, 40, 25, 10, 40, 25]}[tier]
     cs, i = [], 0
     dirs = []
     for (name, f), n in zip(SHAPES, reps):
